@@ -4,7 +4,9 @@ Half A (reassembly, model checking): specs/Bcp/Bcp.tla is checked exhaustively o
 sequence of small wire messages; the real receivers (AsyncioBcpClientSocket.read_message, BCPClientSocket.read_message
 and the full BCPClientSocket -> BcpTransportManager._receive_loop -> BcpInterface.process_bcp_message path on a booted
 machine) are fed from a hand-driven asyncio.StreamReader with every chunking of short streams, sampled chunkings of
-long ones and TLC-simulated Send/Deliver interleavings; BcpTrace.tla judges the logged content ids.
+long ones and TLC-simulated Send/Deliver interleavings; BcpTrace.tla judges the logged content ids.  The message sets
+(abstract and real) contain lines of the class Bcp!Lookalike: no announcement, but ending like one (parameter names equal
+to / ending in "bytes" with all-digit values), followed by further messages with and without payloads.
 
 Half B (codec, bounded-exhaustive enumeration): specs/Bcp/BcpCodec.tla enumerates message shapes (TLC state graph =
 case list, `-dump` for the exhaustive part, `-simulate` for the deep part); each shape is instantiated with concrete
@@ -112,12 +114,34 @@ TABLE = [
     M('c19_set', {'value': 1e16, 'n': -2147483649, 'z': ''}),                                    # 16
     M('c19_frame', {'name': '&bytes'}, pay=b'&bytes=1\n'),                                       # 17
     M('c19_nested', {'items': ['&bytes=3']}),                                                    # 18 JSON path, marker
+    # 19.. : lines WITHOUT an announcement that end like one (Bcp!Lookalike): parameter names equal to / ending in
+    # "bytes" with all-digit string values, as only, last, first and middle parameter, with and without a real payload
+    M('a', {'bytes': '1'}),                                                                      # 19 "a?bytes=1\n"
+    M('a', {'xbytes': '2'}),                                                                     # 20 "a?xbytes=2\n"
+    M('c19_set', {'name': 'intro_video', 'total_bytes': '20'}),                                  # 21 last
+    M('c19_set', {'total_bytes': '20', 'name': 'x'}),                                            # 22 not last
+    M('c19_set', {'bytes': '7'}),                                                                # 23 only parameter
+    M('c19_set', {'bytes': '12', 'name': 'x'}),                                                  # 24 first of two
+    M('c19_set', {'rawbytes': '0'}),                                                             # 25 length zero
+    M('c19_frame', {'free_bytes': '3'}, pay=b'abc'),                                             # 26 + real payload
+    M('c19_trigger', {'name': 'x', 'total_bytes': 20}),                                          # 27 typed int
+    M('c19_nested', {'items': [1], 'total_bytes': '20'}),                                        # 28 JSON path
+    M('c19_trigger', {'v': 'bytes=5', 'w': '5'}),                                                # 29 value looks like it
+    M('c19_frame', {'bytes': '2'}, pay=b'\n\n'),                                                 # 30 "..?bytes=2&bytes=2"
+    M('c19_set', {'a': '1', 'kbytes': '3', 'n': 4, 'free_bytes': '300'}),                        # 31 middle and last
+    M('c19_set', {'name': 'x', 'bytes': '7'}),                                                   # 32 line CONTAINS the marker
 ]
 JSON_MARKER_MSG = 18
+PARAM_MARKER_MSG = 32          # a non-first parameter literally named "bytes": the query path writes "&bytes="
+MARKER_MSGS = (JSON_MARKER_MSG, PARAM_MARKER_MSG)
+LOOKALIKE_TAIL = re.compile(rb'bytes=\d+$')
 CMDS = sorted({m['cmd'] for m in TABLE})
 # streams of at most 14 bytes: every chunking
 EXHAUSTIVE = [[5, 2], [0, 4], [4, 0], [7, 8], [3, 1, 2], [6, 1], [0, 1, 2, 0, 1, 2, 0], [8, 7]]
 LONG = [[9, 12, 10], [13, 11, 14, 0, 4], [15, 3, 16, 17, 9], [10, 10, 5, 2, 11], [14, 12, 13, 1]]
+# the same with lookalike lines in front of / between / behind other traffic on the same connection
+EXHAUSTIVE_LOOK = [[19, 1], [1, 19], [20, 2]]
+LONG_LOOK = [[21, 9, 13, 23, 26, 10], [22, 25, 14, 24, 0, 31, 4, 27], [28, 29, 21, 30, 20, 19, 1], [31, 12, 23, 23, 5, 2]]
 
 
 class _W:
@@ -422,25 +446,39 @@ def reasm_mc_module(quick):
         for p in pays:
             msgs.append({'id': len(msgs) + 1, 'line': b, 'hasPay': p is not None, 'pay': p or []})
     three = [m for m in msgs if len(m['line']) <= 2 and len(m['pay']) <= 2][:10 if quick else 18]
+    # lines that end like an announcement without being one ("=1" is the marker "&=" without its left boundary):
+    # alone, behind a command, with length 0, not at the end of the line; each with and without a real payload
+    if quick:
+        lbodies = [[eq, 49], [a, eq, 49], [a, eq, 48], [eq, 49, a], [a]]
+        lpays = [None, [a], [nl]]
+    else:
+        lbodies = [[eq, 49], [a, eq, 49], [a, eq, 48], [eq, 49, a], [a], [amp, a, eq, 49], [eq, 49, 49], [eq, a, eq, 49]]
+        lpays = [None, [], [a], [nl], [eq, 49]]
+    look = []
+    for b in lbodies:
+        for p in lpays:
+            look.append({'id': len(look) + 1, 'line': b, 'hasPay': p is not None, 'pay': p or []})
     t = table()
     real = [{'id': i + 1, 'line': list(t.line[i]), 'hasPay': TABLE[i]['pay'] is not None, 'pay': list(TABLE[i]['pay'] or b'')}
-            for i in range(len(TABLE)) if len(t.wire[i]) <= (24 if quick else 40) and i != JSON_MARKER_MSG]
+            for i in range(len(TABLE)) if len(t.wire[i]) <= (24 if quick else 40) and i not in MARKER_MSGS]
     gen = [{'id': i + 1, 'line': list(t.line[i]), 'hasPay': TABLE[i]['pay'] is not None, 'pay': list(TABLE[i]['pay'] or b'')}
-           for i in range(len(TABLE)) if len(t.wire[i]) <= 90 and i != JSON_MARKER_MSG]
+           for i in range(len(TABLE)) if len(t.wire[i]) <= 90 and i not in MARKER_MSGS]
     txt = """----------------------------- MODULE BcpMC -----------------------------
 EXTENDS Bcp
 MCMarker == <<38, 61>>
 RealMarker == %s
 MCMsgs2 == {%s}
 MCMsgs3 == {%s}
+MCMsgsL == {%s}
 RealMsgs == {%s}
 GenMsgs == {%s}
 NoDev == {}
 DevModeLost == {"ModeLostAcrossReads"}
+DevNoLeft == {"MarkerWithoutLeftBoundary"}
 =============================================================================
 """ % (to_tla(REAL_MARKER), ',\n  '.join(to_tla(m) for m in msgs), ',\n  '.join(to_tla(m) for m in three),
-       ',\n  '.join(to_tla(m) for m in real), ',\n  '.join(to_tla(m) for m in gen))
-    return txt, len(msgs), len(three), len(real)
+       ',\n  '.join(to_tla(m) for m in look), ',\n  '.join(to_tla(m) for m in real), ',\n  '.join(to_tla(m) for m in gen))
+    return txt, len(msgs), len(three), len(real), len(look)
 
 
 REASM_CFG = """SPECIFICATION Spec
@@ -474,6 +512,9 @@ def reasm_signature(tr, info):
     op = fe.get('op', '?')
     haspay = any(e.get('hp') for e in tr['ev'] if e.get('op') == 'send')
     tail = 'payload' if haspay else 'plain'
+    upto = tr['ev'][:info['line']] if info.get('line') else tr['ev']
+    if any(e.get('op') == 'send' and BYTE_MARKER not in bytes(e['line']) and LOOKALIKE_TAIL.search(bytes(e['line'])) for e in upto):
+        tail += '+marker-lookalike-line'      # naming only: a line of the class Bcp!Lookalike was sent before the failure
     if info.get('reason') == 'monitor':
         return 'C19:reasm:monitor:%s:%s' % (info.get('monitor'), tail)
     if op == 'send':
@@ -506,11 +547,12 @@ def reasm_signature(tr, info):
 def run_reassembly(ctx, wd):
     t = table()
     # ---- design check: every chunking of every sequence of small abstract messages --------------------
-    txt, n2, n3, nreal = reasm_mc_module(ctx.quick)
+    txt, n2, n3, nreal, nlook = reasm_mc_module(ctx.quick)
     with open(wd + '/BcpMC.tla', 'w') as f:
         f.write(txt)
     runs = [('Bcp 2 msgs', 'MCMsgs2', 'MCMarker', 2, 'NoDev', n2), ('Bcp 3 msgs', 'MCMsgs3', 'MCMarker', 3, 'NoDev', n3),
-            ('Bcp real-bytes msgs', 'RealMsgs', 'RealMarker', 2, 'NoDev', nreal)]
+            ('Bcp real-bytes msgs', 'RealMsgs', 'RealMarker', 2, 'NoDev', nreal),
+            ('Bcp lookalike msgs', 'MCMsgsL', 'MCMarker', 2 if ctx.quick else 3, 'NoDev', nlook)]
     for label, ms, mk, mx, dev, n in runs:
         cfg = 'MC_%s_%d.cfg' % (ms, mx)
         with open(os.path.join(wd, cfg), 'w') as f:
@@ -524,6 +566,15 @@ def run_reassembly(ctx, wd):
     if not r.violated:
         raise tlc.TLCError('deviation ModeLostAcrossReads not caught by the Bcp monitors:\n' + r.out[-1500:])
     ctx.notes.append('design sensitivity: deviation ModeLostAcrossReads violates %s' % r.violated)
+    # ... and so must a receiver that accepts the announcement without its left boundary, on the abstract and on the
+    # real-byte message set (which also shows that both sets contain lines of the class Bcp!Lookalike)
+    for ms, mk in (('MCMsgsL', 'MCMarker'), ('RealMsgs', 'RealMarker')):
+        with open(wd + '/MC_dev2.cfg', 'w') as f:
+            f.write(REASM_CFG % (ms, mk, 2, 'DevNoLeft', REASM_PROPS))
+        r = tlc.check(wd, 'BcpMC', 'MC_dev2.cfg', timeout=3000)
+        if not r.violated:
+            raise tlc.TLCError('deviation MarkerWithoutLeftBoundary not caught by the Bcp monitors on %s:\n' % ms + r.out[-1500:])
+        ctx.notes.append('design sensitivity: deviation MarkerWithoutLeftBoundary on %s violates %s' % (ms, r.violated))
     ctx.coverage['monitors'] += ['InOrderPrefix', 'ChunkingIndependent', 'CompleteWhenDelivered', 'DispatchedAsSoonAsComplete',
                                  'DispatchAppendOnly', 'BcpTrace: rx = sent ids in order, complete at end']
     # ---- schedules -----------------------------------------------------------------------------------
@@ -533,7 +584,7 @@ def run_reassembly(ctx, wd):
     ex = EXHAUSTIVE[:3] if ctx.quick else EXHAUSTIVE
     nexh = 0
     for si, msgs in enumerate(ex):
-        if JSON_MARKER_MSG in msgs:
+        if set(MARKER_MSGS) & set(msgs):
             continue
         n = sum(len(t.wire[i]) for i in msgs)
         if n > 14:
@@ -543,13 +594,36 @@ def run_reassembly(ctx, wd):
             for s in all_chunkings(msgs, n):
                 jobs.append({'rcv': rk, 'sched': s, 'src': 'exhaustive'})
                 nexh += 1
+    # lookalike lines followed by further traffic: every chunking, on both client classes (and the machine path)
+    exl = EXHAUSTIVE_LOOK[:1] if ctx.quick else EXHAUSTIVE_LOOK
+    for msgs in exl:
+        n = sum(len(t.wire[i]) for i in msgs)
+        if n > 14:
+            raise tlc.TLCError('exhaustive stream %s has %d bytes' % (msgs, n))
+        for rk in (('asyncio', 'machine') if ctx.quick else rcvs):
+            for s in all_chunkings(msgs, n):
+                jobs.append({'rcv': rk, 'sched': s, 'src': 'exhaustive-lookalike'})
+                nexh += 1
     nsamp = 0
-    for si, msgs in enumerate(LONG if not ctx.quick else LONG[:3]):
+    longs = (LONG[:3] + LONG_LOOK[:2]) if ctx.quick else (LONG + LONG_LOOK)
+    for si, msgs in enumerate(longs):
         n = sum(len(t.wire[i]) for i in msgs)
         b = framing_bounds(msgs)
         for ci, s in enumerate(sampled_chunkings(msgs, n, b, rng, 30 if ctx.quick else 300)):
             jobs.append({'rcv': rcvs[(si + ci) % 3], 'sched': s, 'src': 'sampled'})
             nsamp += 1
+    # every lookalike message of the table in front of another message and of a payload message, on every receiver
+    for i in range(len(TABLE)):
+        if i in MARKER_MSGS or not LOOKALIKE_TAIL.search(t.line[i]):
+            continue
+        for follow in ([1], [13, 9]):
+            msgs = [i] + follow
+            n = sum(len(t.wire[j]) for j in msgs)
+            hdr = len(t.wire[i]) - len(TABLE[i]['pay'] or b'')
+            for rk in rcvs:
+                for cuts in ([], [hdr - 1], [hdr], [hdr + 1], list(range(1, n))):
+                    jobs.append({'rcv': rk, 'sched': chunk_sched(msgs, cuts, n), 'src': 'lookalike-pairs'})
+                    nsamp += 1
     # TLC-simulated interleavings of Send and Deliver over the real-byte message table
     with open(wd + '/Gen.cfg', 'w') as f:
         f.write(REASM_CFG % ('GenMsgs', 'RealMarker', 5, 'NoDev', ''))
@@ -569,6 +643,12 @@ def run_reassembly(ctx, wd):
         n = len(t.wire[JSON_MARKER_MSG]) + len(t.wire[0])
         for cuts in ([5],) if ctx.quick else ([], [5], list(range(1, n))):
             jobs.append({'rcv': rk, 'sched': chunk_sched([JSON_MARKER_MSG, 0], cuts, n), 'src': 'json-marker'})
+    # the same for a payload-less message with a non-first parameter literally named "bytes": the query path writes
+    # the announcement itself ("...&bytes=7")
+    for rk in rcvs:
+        n = len(t.wire[PARAM_MARKER_MSG]) + len(t.wire[0])
+        for cuts in ([5],) if ctx.quick else ([], [5], list(range(1, n))):
+            jobs.append({'rcv': rk, 'sched': chunk_sched([PARAM_MARKER_MSG, 0], cuts, n), 'src': 'param-marker'})
     ctx.log('reassembly: %d executions (%d exhaustive chunkings, %d sampled, %d simulated)' % (len(jobs), nexh, nsamp, len(behs)))
     traces = harness.pmap(exec_reasm, jobs, chunk=64)
     with open(wd + '/Trace.cfg', 'w') as f:
@@ -576,7 +656,17 @@ def run_reassembly(ctx, wd):
     v = tlc.validate_traces(wd, 'BcpTrace', 'Trace.cfg', traces, workers=8, batch=6000)
     ctx.add_trace_verdict('BcpTrace', v, len(traces))
     # rejections the batch run had no budget to locate: locate them (bounded) so that no failure class stays unnamed
-    undi = [i for i, info in sorted(v.rejected.items()) if info.get('line') is None][:24]
+    groups = {}                       # spread the budget over receivers and schedule sources
+    for i, info in sorted(v.rejected.items()):
+        if info.get('line') is None:
+            groups.setdefault((traces[i]['cfg']['rcv'], traces[i]['_job'].get('src')), []).append(i)
+    undi = []
+    while groups and len(undi) < 24:
+        for g in sorted(groups):
+            undi.append(groups[g].pop(0))
+            if not groups[g]:
+                del groups[g]
+    undi = sorted(undi[:24])
     for b0 in range(0, len(undi), 8):
         ids = undi[b0:b0 + 8]
         v2 = tlc.validate_traces(wd, 'BcpTrace', 'Trace.cfg', [traces[i] for i in ids], workers=2, batch=8)
@@ -585,20 +675,30 @@ def run_reassembly(ctx, wd):
                 v.rejected[i] = v2.rejected[k]
     ctx.coverage['bounds']['reassembly executions'] = {
         'exhaustive_chunkings': nexh, 'exhaustive_streams': [[len(t.wire[i]) for i in m] for m in ex],
+        'exhaustive_lookalike_streams': [[t.wire[i].decode() for i in m] for m in exl],
+        'lookalike_lines_executed': sorted({bytes(e['line']).decode() for tr in traces for e in tr['ev'] if e.get('op') == 'send' and
+                                            BYTE_MARKER not in bytes(e['line']) and LOOKALIKE_TAIL.search(bytes(e['line']))}),
         'sampled_chunkings': nsamp, 'tlc_simulated': len(behs), 'receivers': list(rcvs)}
     ctx.sample({'kind': 'reassembly-trace', 'cfg': traces[0]['cfg'], 'trace': traces[0]['ev'][:6]})
-    for i, info in sorted(v.rejected.items()):
-        if info.get('line') is None:
-            continue
+    located = [(i, info) for i, info in sorted(v.rejected.items()) if info.get('line') is not None]
+    by_sig = {}
+    for i, info in located:
+        by_sig.setdefault(reasm_signature(traces[i], info), set()).add(traces[i]['cfg']['rcv'])
+    for i, info in located:
         tr = traces[i]
         fe = info.get('failing_event') or {}
         after = [e for e in tr['ev'] if e.get('op') == 'crash']
-        ctx.violation(reasm_signature(tr, info),
-                      'receiver %s: execution not explained by Bcp reassembly spec at line %s: %s; messages %s; %s' % (
+        sig = reasm_signature(tr, info)
+        ctx.violation(sig,
+                      'seen on receivers %s; ' % sorted(by_sig[sig]) + 'receiver %s: execution not explained by Bcp reassembly spec at line %s: %s; messages %s; %s' % (
                           tr['cfg']['rcv'], info.get('line'), _short(fe),
                           [(TABLE[j]['cmd'], TABLE[j]['kw'], None if TABLE[j]['pay'] is None else len(TABLE[j]['pay']))
                            for j in tr.get('_tabs', [])][:4],
-                          ('real receiver then: %s' % after[0]['what']) if after else ''),
+                          ('real receiver then: %s' % after[0]['what']) if after else
+                          ('the line written by the real sender contains the payload announcement %r, the receivers wait for '
+                           'that many payload bytes: real receiver dispatched %s of %d messages' % (
+                               BYTE_MARKER, [x for e in tr['ev'] for x in e.get('rx', [])], len(tr.get('_tabs', []))))
+                          if fe.get('op') == 'send' and BYTE_MARKER in bytes(fe.get('line', [])) else ''),
                       {'half': 'reasm', 'job': tr['_job'], 'trace': tr['ev'][:60], 'info': info})
 
 
